@@ -412,7 +412,7 @@ theorem exec_ran_nodup {g : Graph} {fails : Kind → Bool} :
       simp only
       generalize hs : (minOf (List.filter (fun b => !fin.contains b) (g.branchAnc t))).getD t = s
       generalize hblk : (List.range (s + 1)).filter
-        (fun n => !fin.contains n && (g.kind n != .branch || n == s) && g.shares n s) = blk
+        (fun n => !fin.contains n && (component g s).contains n) = blk
       obtain ⟨l, hl, he⟩ := foldl_step_ran g blk st
       have hblknd : blk.Nodup := by
         rw [← hblk]; exact List.Nodup.sublist List.filter_sublist List.nodup_range
@@ -422,7 +422,7 @@ theorem exec_ran_nodup {g : Graph} {fails : Kind → Bool} :
         have := (List.mem_filter.mp hn).2
         simp only [Bool.and_eq_true, Bool.not_eq_eq_eq_not, Bool.not_true] at this
         intro hc
-        have h1 := this.1.1
+        have h1 := this.1
         simp [hc] at h1
       have hnd : (blk.foldl (step g) st).ran.Nodup := by
         rw [he]
@@ -464,7 +464,7 @@ theorem exec_ret {g : Graph} {fails : Kind → Bool} :
       simp only at h
       generalize hs : (minOf (List.filter (fun b => !fin.contains b) (g.branchAnc t))).getD t = s at h
       generalize hblk : (List.range (s + 1)).filter
-        (fun n => !fin.contains n && (g.kind n != .branch || n == s) && g.shares n s) = blk at h
+        (fun n => !fin.contains n && (component g s).contains n) = blk at h
       split at h
       · split at h
         · simp at h
